@@ -42,6 +42,17 @@ RULE = ("a case = (role, failByDrop, echoCloseCodeReason, closeHandshakeTimeout,
         "class (<=122, 123, 124, 125, 126, 500 octets, 2/3/4-byte code points at every alignment of the cut) and (b) from a frame "
         "that does not decompress under a negotiated permessage-deflate (>123 octets): 860 enumerated cases per framework + ~12% "
         "of the random cases. "
+        "PEER THAT KEEPS SENDING (bounded closure is judged not only against a silent peer): after closing began in each way (we "
+        "initiate / reply received after 0.3 s / peer initiates / we fail the connection / invalid peer close) the peer never "
+        "drops TCP and sends close frames (same / varying), pings, pongs, text, unfinished fragments or a mix every 0.4 / 0.7 / "
+        "0.9 s of virtual time until the deadline, x close/drop timeouts {1,2,5}; or one duplicate of its close frame 0.3/0.6/0.95 "
+        "x serverConnectionDropTimeout after the first: 3192 enumerated cases per framework + 30% of the random cases; the "
+        "clock also advances by fractions of the timeouts INSIDE sequences. "
+        "PEER OCTETS RACING WITH CONNECTION-LOST (event prace): the octets are handed to the endpoint when the transport's "
+        "connection-lost notification is already scheduled ahead of the adapter's consumer - the order CPython's proactor "
+        "transport produces when re-arming the read fails, or when a completed read is delivered after the endpoint's own "
+        "close()/abort() - for close frames (valid/empty/invalid), data, pings and combinations, in OPEN/CLOSING/own drop pending: "
+        "936 enumerated cases per framework + random. "
         "Non-trivial = the connection was OPEN and the onClose arguments were judged, or a pending application decision was "
         "delivered under the monitors; distinct = hash of (framework, NVX flag, whole case).")
 ASSUMPTIONS = [
@@ -58,6 +69,9 @@ ASSUMPTIONS = [
     "asynchronous opening handshake: only the documented asynchronous hooks are driven (server onConnect() 'can also return a Deferred/Future', client onConnecting() 'or a future which resolves to one'); the client's onConnect() is documented to return None and is left synchronous",
     "grey: a connection that never became OPEN and gets no onClose at all is not flagged in the asynchronous-handshake family (on the unchanged tree onClose(False, 1006, ..) is always delivered; a second onClose, onClose before connection-lost and anything delivered/written after it ARE flagged); which HTTP response a denied or timed-out handshake gets, the text of the unclean reason and whether a decision that arrives after a LOCAL drop (timeout) but before connection-lost still writes to the aborting transport are left open",
     "a peer close frame fed while the server's onConnect() result is pending counts as received (it is buffered and processed when the handshake completes); octets fed before the handshake request/response do not",
+    "bounded closure does not depend on what the peer sends: the same deadline t0 + sum(applicable timeouts) + 1 s is asserted when the peer keeps sending frames (further close frames included) without dropping TCP; serverConnectionDropTimeout is applicable to a client as soon as any peer close frame is or will be delivered",
+    "serverConnectionDropTimeout read as documented ('when the server does not drop TCP within this time the client does'): a client to which the server's FIRST close frame - a valid or empty one - was delivered at t1 while OPEN/CLOSING has requested the drop of its transport by t1 + serverConnectionDropTimeout + 0.25 s unless the transport was lost first (the timer is armed with txaio.call_later, exact on the virtual clock); not asserted after invalid/grey first close frames or with the timeout 0",
+    "event order 'data_received() after connection-lost was scheduled' is the one of CPython's _ProactorReadPipeTransport._loop_reading (re-arming recv_into raises -> _force_close() call_soon()s connection_lost, then the finished read is delivered in 'finally'; a finished read is also delivered after close()/abort()); reproduced with the real transport class and a fake proactor by vf/c05_proactor_order_probe.py. A peer close frame handed over this way counts as received; octets written to the lost transport do not count as travelled. Writes/deliveries between connection-lost and onClose are not flagged (the statement only speaks about 'after' the close notification)",
     "asyncio adapter: the transport is detached (None) in connection_lost(); an AttributeError \"'NoneType' object has no attribute 'write'\" that reaches the event loop's exception handler after onClose is read as an attempted transport write after onClose",
 ]
 DECIDING = {
@@ -75,6 +89,15 @@ DECIDING = {
     "async_resolved_after_timeout": 200,        # ... after the opening-handshake timeout dropped the connection (connection-lost not yet delivered)
     "async_resolved_after_lost": 2000,          # ... after connection-lost (peer TCP drop or delivery of the own drop) and onClose
     "async_opened_by_result": 1000,             # ... and the connection became OPEN through the late result
+    # bounded closure against a peer that keeps sending / time passing between peer frames
+    "bounded_chatty_evaluated": 1000,           # deadlines judged after the peer had kept sending while we were CLOSING
+    "bounded_chatty_frames_fed": 3000,          # reads delivered to a CLOSING endpoint by such a peer
+    "sdt_tight_evaluated": 500,                 # client: own drop judged against (first server close frame delivered) + serverConnectionDropTimeout
+    "sdt_tight_dropped_by_the_timer": 500,      # ... of which the drop came exactly when that timeout expired
+    # peer octets handed over when connection-lost is already scheduled (asyncio adapter's consumer queue)
+    "raced_feeds": 300,
+    "raced_queue_nonempty_at_lost": 300,        # connection_lost() really ran before the adapter's consumer
+    "raced_peer_close_frames": 200,
 }
 
 # ------------------------------------------------------------------------------------------------
@@ -175,6 +198,80 @@ def libreason_cases():
                                    "events": [list(e) for e in pre] + [["pviol", "badz"]] + [list(e) for e in tail]}
 
 
+# ---- the peer is not silent while the endpoint is CLOSING -------------------------------------------------------
+CHATTER_KINDS = ["close", "closemix", "ping", "pong", "text", "frag", "mix"]
+CHATTER_DT = [0.4, 0.7, 0.9]        # all shorter than the smallest positive timeout of the grid (1 s)
+
+
+def chatty_cases(deep=False):
+    """closing begun in every way, then the peer keeps sending (every kind, three rhythms) but never drops TCP; plus a
+    single late duplicate of the peer's close frame with time passing before it"""
+    openings = [
+        [["close", 1000, "a"]],                                 # we initiate, no reply yet
+        [["close", 3000, "mb3@122"], ["adv", 0.3], ["pclose", "v1000"]],   # we initiate, reply after 0.3 s
+        [["pclose", "v1000"]],                                  # peer initiates, we reply
+        [["pclose", "empty"], ["adv", 0.5]],
+        [["pviol", "opcode"]],                                  # we fail the connection (close frame unless failByDrop)
+        [["pclose", "bad1005"]],                                # invalid peer close: failed with a close frame of ours
+        [["msg", "text"], ["pdata", "text"], ["close", None, "none"]],
+    ]
+    cfgs = []
+    for fbd in ((False, True) if deep else (False,)):
+        for echo in (False, True):
+            for cht in (1, 2, 5):
+                cfgs.append({"role": "server", "fbd": fbd, "echo": echo, "cht": cht, "sdt": 0})
+            for cht, sdt in ((1, 1), (2, 1), (1, 2), (2, 5), (5, 2), (0, 1), (0, 5)) + (((5, 5), (5, 1), (2, 2)) if deep else ()):
+                cfgs.append({"role": "client", "fbd": fbd, "echo": echo, "cht": cht, "sdt": sdt})
+    k = 0
+    for cfg in cfgs:
+        for op in openings:
+            for kind in CHATTER_KINDS:
+                for dt in (CHATTER_DT + [0.25, 0.55] if deep else CHATTER_DT):
+                    k += 1
+                    c = dict(cfg)
+                    c.update(start="open", seg=("whole", "whole", "split2", "bytewise")[k % 4], fc=bool(k & 1),
+                             react=(None, None, None, "msg")[k % 4] if kind in ("text", "mix") else None,
+                             inclose=INCLOSE[k % len(INCLOSE)], events=[list(e) for e in op], endgame=[kind, dt])
+                    yield c
+    # one duplicate of the peer's close frame, d seconds after the one that completed the handshake; then silence
+    for cfg in cfgs:
+        if cfg["role"] != "client" or not cfg["sdt"]:
+            continue
+        for first in ([["pclose", "v1000"]], [["close", 1000, "a"], ["adv", 0.3], ["pclose", "v3000"]]):
+            for frac in (0.3, 0.6, 0.95):
+                for dup in ("v1000", "v4999", "empty"):
+                    k += 1
+                    c = dict(cfg)
+                    c.update(start="open", seg="whole", fc=bool(k & 1), react=None, inclose=None,
+                             events=[list(e) for e in first] + [["adv", round(frac * cfg["sdt"], 3)], ["pclose", dup]])
+                    yield c
+
+
+# ---- peer octets handed over when connection-lost is already scheduled (proactor transport order) ---------------
+def raced_cases():
+    prefixes = [
+        [], [["msg", "text"]], [["pdata", "fragstart"]], [["close", 1000, "a"]], [["close", 3000, "b123"], ["tick"]],
+        [["pclose", "v1000"]], [["pclose", "v1000"], ["tick"]], [["pviol", "rsv"]], [["pdata", "text"], ["ping"]],
+    ]
+    raced = [
+        ["c:v1000"], ["c:v3000"], ["c:empty"], ["c:v1000nr"], ["c:bad1005"], ["c:badutf8"], ["text"], ["ping"],
+        ["text", "c:v1000"], ["c:v4999", "text"], ["ping", "c:v1001", "ping"], ["viol"], ["frag", "c:v1000"],
+    ]
+    k = 0
+    for role in ("server", "client"):
+        for fbd in (False, True):
+            for echo in (False, True):
+                for pre in prefixes:
+                    for r in raced:
+                        k += 1
+                        yield {"role": role, "fbd": fbd, "echo": echo, "cht": (2, 0, 1)[k % 3],
+                               "sdt": (1, 2, 0)[k % 3] if role == "client" else 0, "start": "open",
+                               "seg": ("whole", "split2", "whole", "bytewise")[k % 4], "fc": bool(k & 1),
+                               "react": (None, "msg", None, "close", None, "prepared")[k % 6] if "text" in r else None,
+                               "inclose": INCLOSE[k % len(INCLOSE)],
+                               "events": [list(e) for e in pre] + [["prace"] + list(r)]}
+
+
 def gen_async_case(rng):
     role = rng.choice(["server", "server", "client"])
     kinds = ["none", "proto", "tuple", "tuple0", "deny", "exc"] if role == "server" else ["none", "req", "exc"]
@@ -219,7 +316,7 @@ def gen_event(rng):
 
     kind = _w(rng, [(18, "close"), (6, "msg"), (3, "ping"), (2, "pong"), (7, "prepared"), (3, "sbegin"), (2, "sframe"),
                     (2, "send"), (15, "pclose"), (6, "pdata"), (3, "pping"), (1, "ppong"), (5, "pviol"), (6, "pcombo"),
-                    (10, "tick"), (4, "adv"), (4, "pdrop"), (5, "fin")])
+                    (10, "tick"), (5, "adv"), (4, "pdrop"), (5, "fin"), (3, "prace")])
     if kind == "close":
         if rng.random() < 0.8:
             code = rng.choice([1000, 1000, 3000, 3999, 4000, 4999, None])
@@ -238,14 +335,14 @@ def gen_event(rng):
         return ["pdata", rng.choice(["text", "bin", "fragstart", "cont", "badutf8"])]
     if kind == "pviol":
         return ["pviol", rng.choice(["opcode", "rsv", "mask", "fragctl", "bigping", "ctlopcode", "badz"])]
-    if kind == "pcombo":
+    if kind in ("pcombo", "prace"):
         parts = []
-        for _ in range(rng.randint(2, 3)):
+        for _ in range(rng.randint(2, 3) if kind == "pcombo" else rng.randint(1, 2)):
             p = rng.choice(["c", "c", "text", "ping", "viol"])
             parts.append("c:" + rng.choice(list(E.PEER_CLOSES)) if p == "c" else p)
-        return ["pcombo"] + parts
+        return [kind] + parts
     if kind == "adv":
-        return ["adv", rng.choice([0.3, 0.5, 1.0, 1.7, 3.0])]
+        return ["adv", rng.choice([0.3, 0.5, 0.7, 0.9, 1.0, 1.7, 3.0, 4.5])]
     if kind == "pdrop":
         return ["pdrop", rng.random() < 0.5]
     return [kind]
@@ -258,6 +355,9 @@ def gen_case(rng):
          "start": "open", "seg": _w(rng, [(6, "whole"), (2, "bytewise"), (2, "split2")]), "fc": rng.random() < 0.5,
          "react": _w(rng, [(8, None), (1, "close"), (1, "msg"), (1, "prepared")]),
          "inclose": rng.choice(INCLOSE)}
+    if rng.random() < 0.3:
+        # bounded closure judged against a peer that keeps sending instead of a silent one
+        c["endgame"] = [rng.choice(CHATTER_KINDS), rng.choice(CHATTER_DT)]
     n = rng.randint(4, 10)
     ev = [gen_event(rng) for _ in range(n)]
     x = rng.random()
@@ -296,12 +396,12 @@ def shards(tier, seed):
     parts = 8 if tier == "quick" else 24
     for fw in ("tx", "aio"):
         for i in range(parts):
-            out.append({"name": "%s-%d" % (fw, i), "fw": fw, "env": env_nvx, "timeout": 1500,
+            out.append({"name": "%s-%d" % (fw, i), "fw": fw, "env": env_nvx, "timeout": 5400,
                         "params": {"tier": tier, "seed": seed, "part": i, "parts": parts, "nvx": 1}})
     if tier == "thorough":
         for fw in ("tx", "aio"):
             for i in range(2):
-                out.append({"name": "%s-pure-%d" % (fw, i), "fw": fw, "env": {"AUTOBAHN_USE_NVX": "0"}, "timeout": 1500,
+                out.append({"name": "%s-pure-%d" % (fw, i), "fw": fw, "env": {"AUTOBAHN_USE_NVX": "0"}, "timeout": 5400,
                             "params": {"tier": "pure", "seed": seed, "part": i, "parts": 2, "nvx": 0}})
     return out
 
@@ -367,6 +467,14 @@ def run_shard(params, R):
             _judge_case(case, R, fw, nvx, 199)
             R.count("libreason_cases")
         idx += 1
+    # ---- the peer keeps sending while the endpoint is CLOSING; peer octets racing with connection-lost
+    for label, gen in (("chatty_cases", chatty_cases(tier == "thorough")), ("raced_cases", raced_cases())):
+        idx = 0
+        for case in gen:
+            if idx % parts == part:
+                _judge_case(case, R, fw, nvx, 499)
+                R.count(label)
+            idx += 1
     # ---- random part
     n_rand = {"quick": 5000, "thorough": 22000, "pure": 30000}[tier]
     rng = random.Random((seed * 1000003 + part * 7919 + (17 if fw == "aio" else 0) + (1 if nvx else 0) * 31) & 0xFFFFFFFF)
@@ -405,7 +513,10 @@ MANIFEST_ENTRY = {
              "at most one close frame, no data frame after it, only wire-legal codes and <=123-byte valid UTF-8 reasons (octets "
              "re-parsed by an independent RFC 6455 codec); wasClean=True only when close frames travelled both ways and then with "
              "the peer's code/reason; with the peer silent the connection is CLOSED by t0 + applicable timeouts + 1 s on the "
-             "virtual clock. Held = no refuting event on the executions listed in the evidence; not a proof."),
+             "virtual clock - with a silent peer AND with a peer that keeps sending close frames/pings/data at sub-timeout "
+             "intervals without dropping TCP; a client drops TCP serverConnectionDropTimeout after the server's close frame arrived "
+             "whatever follows it. Peer octets are also handed over in the proactor transport's order (connection-lost already "
+             "scheduled ahead of the asyncio adapter's consumer). Held = no refuting event on the executions listed in the evidence; not a proof."),
     "note": ("trusts vf/world.py fake transports + virtual clock, vf/rfc6455_ref.py; grey zones (invalid peer close frames reported "
              "clean, 1012-1014, sync send queue, a never-OPEN connection without any onClose, HTTP response/reason text of a refused "
              "or timed-out opening handshake) are not asserted; auto-ping/PMCE/TLS/proxy paths and an asynchronous client onConnect() "
